@@ -20,6 +20,7 @@ def enc_len(n: int, width: int = 0) -> bytes:
             return bytes([n])
         k = (n.bit_length() + 7) // 8
         return bytes([0x80 | k]) + n.to_bytes(k, "big")
+    width = max(width, (n.bit_length() + 7) // 8)
     return bytes([0x80 | width]) + n.to_bytes(width, "big")
 
 
